@@ -29,7 +29,9 @@ def load_confirm():
 
 def load_runs():
     runs = {}
-    for f in sorted(glob.glob('/tmp/srun_results*.txt'), key=os.path.getmtime):
+    # batches are numbered in the order they were started; within a pair (30 = first runs, 31 = re-runs after strengthening) the
+    # number, not the modification time, is the chronological order per change
+    for f in sorted(glob.glob('/tmp/srun_results*.txt'), key=lambda f: int(re.search(r'(\d*)\.txt$', f).group(1) or 0)):
         for line in open(f):
             m = re.match(r'(C\d\d_\w) (C\d\d) exit=(\d+) (\d+) violation line\(s\): ?(.*)', line.strip())
             if m:
